@@ -3,9 +3,9 @@ import SqlObjVerif.Lemmas.Cache
 # C04 — identity map: one live instance per row per connection on every access path
 
 Property theorems only.  `State`, `step`, `run` : `Model/Cache.lean` (cache.py + the SQLObject life cycle);
-`guard` / `Safe` (Lemmas/Cache.lean) name the four excluded op classes of the `_partial` theorems:
+`guard` / `Safe` (Lemmas/Cache.lean) name the three excluded op classes of the `_partial` theorems:
 (E1) `obj.expire()` / `connection.expireAll()` on an instance the application still holds,
-(E2) unpickling a row that was deleted, (E3) unpickling while a dead weak reference for the id lingers,
+(E2) unpickling a row that was deleted,
 (E4) `destroySelf()` on an already destroyed instance.  Every theorem holds for every configuration
 (`doCache`, `cullFrequency`, `cullFraction`, refcounting or deferred collection) and every history.
 -/
@@ -35,8 +35,8 @@ theorem C04_identity_of_inv (s : State) (hi : CInv s) : Identity s := by
   rw [hc, hk] at e1
   rcases e1 with a | a <;> rcases e2 with b | b
   · exact hi.funS _ _ _ _ a b
-  · exact absurd b (fun b => hi.disj _ _ _ _ a b)
-  · exact absurd a (fun a => hi.disj _ _ _ _ b a)
+  · have := hi.disj _ _ _ _ a b; rw [r2.2.1] at this; cases this
+  · have := hi.disj _ _ _ _ b a; rw [r1.2.1] at this; cases this
   · exact hi.funW _ _ _ _ a b
 
 /-- the invariant holds initially and is preserved by EVERY step that is not one of the excluded ops -/
@@ -179,24 +179,41 @@ theorem C04_unpickle_refused_when_held (s : State) (p : Nat) (c : Cls) (k : Id) 
   have : tryGet s c k = some h0 := by
     unfold tryGet
     rcases e0 with a | a
-    · have hnw : aget k (s.fac c).weak = none := aget_none_iff.2 (fun w hw => hi.disj c k h0 w a hw)
-      have hdc : s.cfg.doCache = true := by
+    · have hdc : s.cfg.doCache = true := by
         cases h' : s.cfg.doCache with
         | true => rfl
         | false => rw [hi.nocache h' c] at a; cases a
-      simp only [hnw, hdc, if_true]; exact aget_eq_some_of_fun (hi.funS c) a
+      have hsg := aget_eq_some_of_fun (hi.funS c) a
+      have hft : Extracted.Cache.tryGetFallsThrough = true := rfl
+      cases hg' : aget k (s.fac c).weak with
+      | none => simp [hdc, hsg]
+      | some w =>
+        have := hi.disj c k h0 w a (aget_some_mem hg')
+        simp [this, hft, hdc, hsg]
     · simp only [aget_eq_some_of_fun (hi.funW c) a, hd, Bool.false_eq_true, if_false]
   rw [this]
 
 def witnessTwice : List Op :=
   [.create 0 none, .pickle 0, .get 0 9, .drop 0, .gc [0], .unpickle 0, .unpickle 0]
 
-/-- finding "C04:pickle-then-get-then-drop-then-unpickle-then-unpickle@cull": after a cull moved the
-    instance to the weak map and it died, its dead weak reference makes `tryGet` answer None although the
-    first unpickled copy sits in the strong map — the second unpickle duplicates -/
+def cfgCull : Cfg := { doCache := true, cullFrequency := 0, cullFraction := 1, refcount := true }
+
+/-- former finding "C04:pickle-then-get-then-drop-then-unpickle-then-unpickle@cull" (fixed in 4b0786d:
+    `tryGet` falls through to the strong map when the weak reference it finds is dead; the fall-through is
+    an extracted constant, so undoing the fix breaks `step_spec`): the history is now covered by the
+    theorems above, and its second unpickle is refused -/
+example : Safe (init cfgCull) witnessTwice = true := by decide
+
+theorem C04_unpickle_twice_refused :
+    (step (run (init cfgCull) (witnessTwice.take 6)) (.unpickle 0)).2 = .valueError := by decide
+
+def witnessExpireUnpickle : List Op := [.create 0 none, .pickle 0, .expire 0, .unpickle 0]
+
+/-- what still fails for unpickling at full strength is the open finding "C04:expire-then-get" again:
+    after `a.expire()` the cache has forgotten `a`, so `__setstate__`'s guard sees nothing -/
 theorem C04_unpickle_no_dup_full_FALSE : ¬ ∀ (cfg : Cfg) (ops : List Op), Identity (run (init cfg) ops) := by
   intro H
-  have := H { doCache := true, cullFrequency := 0, cullFraction := 1, refcount := true } witnessTwice 1 2
+  have := H (Cfg.default true) witnessExpireUnpickle 0 1
     ⟨by decide, by decide, Or.inl (by decide)⟩ ⟨by decide, by decide, Or.inl (by decide)⟩
     (by decide) (by decide) (by decide) (by decide)
   exact absurd this (by decide)
